@@ -1,32 +1,70 @@
 """C04 — no client input can crash, wedge or hang the server (DESIGN.md 3/C04, 7.1).
 
 Theorems (Properties/C04.v): the command model is total, every reply is well-formed and every
-step preserves the keyspace invariants, for every command name and argument vector.
+step preserves the keyspace invariant, for every command name and argument vector, over all
+programs; blocking pops return no later than their timeout.
 Tie: bounded-exhaustive adversarial sweep — every command registered in memdb.CmdTable (read
 from the implementation at run time) x every argument vector up to the tier's arity over the
 adversarial alphabet, on a keyspace holding a key of each type, under the virtual clock; the
-implementation must answer every call (no recovered panic, no nil result, no hang) with the
-model's reply, and the keyspace dumps must agree."""
+implementation must answer every call (no recovered panic, no nil result, no hang beyond the
+blocking commands' timeout) with the model's reply, and the keyspace dumps must agree."""
+import os
+
 from . import gen_sweep, lib, memlib
 
 PID = "C04"
+_x = {}
 
 
-def make_cases(tier, seed):
+def registry():
     d = lib.scratch("c04reg-")
     rc, out = lib.sh("%s registry %s" % (lib.BUILD / memlib.FT, d / "reg.txt"), cwd=d, timeout=60,
                      extra_env={"GOMAXPROCS": "1"})
     if rc != 0:
         raise RuntimeError("harness registry failed: " + out[-1000:])
-    names = (d / "reg.txt").read_text().split()
-    names.append("nosuchcommand")
-    return gen_sweep.gen_sweep(names, tier, seed)
+    return (d / "reg.txt").read_text().split()
+
+
+def make_cases(tier, seed):
+    names = registry()
+    _x["registered"] = names
+    names = names + ["nosuchcommand"]
+    cases, xcases = gen_sweep.gen_sweep(names, tier, seed)
+    _x["xcases"] = xcases
+    return cases
+
+
+def crash_only(ctx, d):
+    """Vectors outside the model's exact-decimal domain: run on the implementation only; any
+    recovered panic, nil result or harness death is a failing input."""
+    xcases = _x.get("xcases") or []
+    if not xcases:
+        return None, {}
+    text = "".join(c.text() for c in xcases)
+    prog, out = d / "x.prog", d / "x.trace"
+    prog.write_text(text)
+    rc, log = lib.sh("%s memrun %s %s %s" % (lib.BUILD / memlib.FT, prog, out, d), cwd=d, timeout=900,
+                     extra_env={"GOMAXPROCS": "1"})
+    bad = None
+    n = 0
+    if rc != 0 or not out.exists():
+        bad = "harness died or hung on the out-of-domain vectors: rc=%s %s" % (rc, log[-800:])
+    else:
+        for l in out.read_text().splitlines():
+            if l.startswith("S "):
+                n += 1
+                obs = l.partition("|")[2].strip()
+                if obs.startswith("!") and obs != "!BLOCKED":
+                    bad = "implementation step without a reply: " + l[:400]
+                    break
+    return bad, dict(crash_only_steps=n, registered_commands=len(_x.get("registered", [])))
 
 
 def run(ctx):
+    os.environ.setdefault("VERIF_WATCHDOG_MS", "5050")
     return memlib.run_family(
         ctx, PID, make_cases,
-        rule="every command name registered in memdb.CmdTable (read from the running implementation) x all argument vectors of length 0..%s over the adversarial alphabet (empty, numeric extremes, nan/inf, option keywords of that command, stream-id shapes, a key of each of the six types, a missing key) + seeded longer vectors; keyspace re-populated with one key per type every 150 calls; liveness probes interleaved" % ("2" if ctx.tier == "quick" else "3"),
-        extra_tb=["blocking commands run under Go's faketime virtual clock: their delay is observed exactly in virtual milliseconds",
-                  "not modelled: stack/heap exhaustion by legitimately large inputs; SUBSCRIBE/PUBLISH/RCONF need a live connection / Raft node and are exercised by C19 / C07 instead"],
-        extra_cov=dict(exhaustive=True))
+        rule="every command name registered in memdb.CmdTable (read from the running implementation) x all argument vectors of length 0..%s over the adversarial alphabet (empty, numeric extremes, nan/inf, option keywords of that command, stream-id shapes, a key of each of the six types, a missing key) + seeded longer vectors; keyspace re-populated with one key per type every 150 calls; liveness probes interleaved; ZADD vectors with scores outside the model's exact-decimal domain are run crash-only" % ("2" if ctx.tier == "quick" else "3"),
+        extra_tb=["blocking commands run under Go's faketime virtual clock with a 5.05 s virtual watchdog: a call still blocked then is cancelled and must be one the model also blocks",
+                  "not modelled: stack/heap exhaustion by legitimately large inputs; SUBSCRIBE/PUBLISH/RCONF need a live connection / Raft node and are exercised by C19 / C07 / C14 instead"],
+        extra_cov=dict(exhaustive=True), post=crash_only)
